@@ -54,6 +54,32 @@ NEEDS = {
  "C09-4": "chunked (no declared length) body arriving in two or more frames is cut to the first frame by the buffered extractors",
  "C11-3": "body-limit override leaks between the versions of one operation: the serving version has no override, another version has one",
  "C11-4": "buffered extractors trust the body's size hint: chunked bodies (no upper hint) of any size are delivered",
+ "C02-3": "repeated path-variable name accepted when the prefix up to the first occurrence was registered before (name recorded only for newly created trie edges)",
+ "C02-4": "asymmetric overlap test: a bounded range registered first, then an open-ended range that starts strictly earlier and overlaps it",
+ "C03-3": "lazy segment decoding with a wildcard that flattens errors away: a bad segment at the second or later position under a wildcard, or after a non-matching segment",
+ "C03-4": "memoised lookups keyed by the decoded segments joined with '/': two requests that differ only in real vs encoded slash, in sequence on one router",
+ "C05-3": "overlap check skipped when the new range begins after the most recently registered one: three registrations in non-ascending order",
+ "C05-4": "header policy memoises the parsed version before the max-version check: the same too-new header value twice in a row",
+ "C07-3": "custom error type + a success value that cannot be turned into a response: the framework-made 500 is sent in dropshot's own format instead of the documented custom one",
+ "C07-4": "non-default content type + a shared extractor (Path/Query) before TypedBody: the document says application/json",
+ "C08-3": "a type with an example annotation used both in a body and as a query/path parameter type: the parameter-side copy (no example) overwrites the component",
+ "C08-4": "Option<T> of a referenced type as the value type of a map that is itself the body type: nullable lost (additionalProperties converted without the $ref+nullable handling)",
+ "C10-3": "versioned route whose versions declare different content types: content type and body limit taken from the first-registered version",
+ "C10-4": "ConfigDropshot::log_headers names a header whose value is not UTF-8: the request logger panics before routing",
+ "C12-3": "a header present both in the declared headers struct and in headers_mut(): both values are sent (append instead of replace)",
+ "C12-4": "thread-local JSON scratch buffer not cleared when serialisation fails part-way: the next JSON response on that thread is prefixed with the fragment",
+ "C13-3": "a response that already carries x-request-id (handler-built or via headers_mut) keeps that value",
+ "C13-4": "second and later values of a repeated error header dropped (HeaderMap::into_iter None names skipped): multi-valued attached headers, Allow on a multi-method 405",
+ "C14-3": "hand-written PaginationParams deserialiser leaves `limit` in the map handed to the scan parameters: ScanParams with deny_unknown_fields + first page + limit",
+ "C14-4": "token decoder without the end-of-input check: a valid token document followed by trailing bytes is accepted",
+ "C15-3": "tokens encoded URL-safe but decoded with the standard alphabet: a page whose last item's token contains '-' or '_'",
+ "C15-4": "thread-local token scratch buffer not cleared when the selector fails to serialise part-way: the next token issued on that thread is corrupt",
+ "C18-3": "TLS handshakes handed over in arrival order (FuturesOrdered): one stalled, still-open handshake blocks every later TLS connection",
+ "C18-4": "peer_addr().expect() in the accept loop: a connection reset between the TCP handshake and accept() kills the listener",
+ "C19-3": "non-default content type + a shared extractor before TypedBody: document shows application/json (all three declaration styles alike)",
+ "C19-4": "document iterator does not filter the root node's handlers by version: a version-restricted endpoint at path '/' appears in every version's document",
+ "C20-3": "the TLS accept loop serves connections without upgrade support: 101 is sent but the channel handler never gets the connection",
+ "C20-4": "hand-written AsyncRead for the upgraded connection uses set_filled instead of advance: handlers that read into a partly filled buffer (read_exact, read_buf) when a record arrives in pieces",
  "C16-3": "Detached mode + HTTP/2: handler awaited inline, cancelled on stream reset / connection close",
  "C16-4": "connection tasks in a JoinSet with panics re-raised in the accept loop: a handler panic takes the listener and all other connections down",
  "C17-3": "wait_for_shutdown() no longer waits for detached handlers (only close() does): Detached mode, client gone, a waiter that is not close()",
@@ -75,13 +101,16 @@ def main():
         if os.path.exists(f"{src}/change{n}.orig.diff"):
             shutil.copy(f"{src}/change{n}.orig.diff", f"{dst}/patch.as-delivered.diff")
         shutil.copy(f"{src}/demo{n}.rs", f"{dst}/demo.rs")
-        if os.path.exists(f"{src}/notes.md"):
-            shutil.copy(f"{src}/notes.md", f"{dst}/agent-notes.md")
+        rnd = (n + 1) // 2
+        notes = f"{src}/notes.md" if rnd == 1 else f"{src}/notes-round{rnd}.md"
+        if os.path.exists(notes):
+            shutil.copy(notes, f"{dst}/agent-notes.md")
         meta_path = f"{dst}/meta.json"
         old = json.load(open(meta_path)) if os.path.exists(meta_path) else {}
         meta = {
             "property": p,
             "seed": key,
+            "round": rnd,
             "origin": "written by an independent sub-agent that saw only the property text and its own scratch worktree of /repo (nothing from /verif)",
             "needs_to_manifest": NEEDS.get(key, ""),
             "demonstration": f"demo.rs, placed at dropshot/tests/seed_demo_{n}.rs, run with: cargo nextest run -p dropshot --test seed_demo_{n} --offline",
